@@ -23,6 +23,17 @@
 (*       request in three pays a private node "p" behind one or two route  *)
 (*       hints (parallel, from different nodes, or a CHAINED route hint    *)
 (*       x -> y -> p through a second private node y).                     *)
+(* Follow-up b19c: every request names the ENTRY POINT it is to be served   *)
+(* by (via: findPath+newRoute, ChannelRouter.FindRoute, the payment         *)
+(* session's RequestRoute, ChannelRouter.BuildRoute) and the node that runs *)
+(* the pathfinder (self = "a"); one graph in five is asked for routes from  *)
+(* a FOREIGN source (FindRoute / findPath only), and Focus may also DISABLE *)
+(* one direction of the focused path (kind "dis").  RequestRoute requests   *)
+(* carry final-hop payload ingredients (payment secret, metadata, custom    *)
+(* records, first-hop records) and multi-part settings (max parts, shards   *)
+(* in flight, max / min shard size) - with a bound of the focused path one  *)
+(* msat too tight only a halved shard finds a route.  The graphs in which   *)
+(* limits bind late and the onion-size dimension are RouteGenD's subject.   *)
 (* The draws use TLC's RandomElement, so every action has one successor    *)
 (* and `-seed` reproduces the behaviours.                                  *)
 (***************************************************************************)
@@ -41,7 +52,7 @@ VARIABLES phase,      \* "build" | "focus" | "ask" | "done"
 gvars == <<vars, phase, nch, want, focus, hist>>
 
 Nodes  == IF NN = 3 THEN {"a", "b", "c"} ELSE {"a", "b", "c", "d"}
-Src    == "a"
+Self   == "a"          \* the node that runs the pathfinder (the fixture's source node)
 Height == 100
 
 Pick(s) == s[RandomElement(1..Len(s))]
@@ -71,7 +82,8 @@ RandHint(id, from, to, rh) ==
   [rh |-> rh] @@ [RandPolicy(id, from, to, HintCap, HintCap) EXCEPT !.inBase = 0, !.inRate = 0, !.disabled = 0,
                                                                    !.minHtlc = 0, !.maxHtlc = 0]
 
-NoFocus == [amt |-> 50000, fee |-> 0, tl |-> 40, dst |-> "b", first |-> 1, last |-> "a", fd |-> 9]
+NoFocus == [amt |-> 50000, fee |-> 0, tl |-> 40, src |-> "a", dst |-> "b", first |-> 1, last |-> "a", fd |-> 9,
+            nodes |-> <<"b">>]
 
 GInit == /\ Init /\ phase = "build" /\ nch = 0 /\ focus = NoFocus /\ hist = <<>>
          /\ want \in 2..MaxChans
@@ -92,40 +104,45 @@ AddChannel ==
   /\ phase' = IF nch + 1 = want THEN "focus" ELSE "build"
   /\ UNCHANGED <<req, res, pos, htlc, status, want, focus, hist>>
 
-\* all channel-id sequences of up to 3 hops that are paths of g from the source and visit no node
+\* all channel-id sequences of up to 3 hops that are paths of g from src and visit no node
 \* twice (except that the last one may be the source again: self-payment)
-Paths == LET ids == {p.id : p \in g} IN
+Paths(src) ==
+         LET ids == {p.id : p \in g} IN
          {p \in UNION {[1..n -> ids] : n \in 1..3} :
-            /\ IsPath(g, Src, p)
-            /\ LET nd == PathNodes(g, Src, p) IN
+            /\ IsPath(g, src, p)
+            /\ LET nd == PathNodes(g, src, p) IN
                \A i, j \in 0..Len(p) : (i < j /\ nd[i] = nd[j]) => (i = 0 /\ j = Len(p))}
 Longest(S) == {p \in S : \A o \in S : Len(o) <= Len(p)}
-Q0(amt, fd) == [NoReq EXCEPT !.src = Src, !.amt = amt, !.finalDelta = fd, !.height = Height]
+Q0(src, amt, fd) == [NoReq EXCEPT !.self = Self, !.src = src, !.amt = amt, !.pay = amt, !.finalDelta = fd,
+                                  !.height = Height]
 \* the paths that the model itself considers payable for this amount
-Feasible(amt, fd) ==
-  {p \in Paths : LET q == [Q0(amt, fd) EXCEPT !.dst = PathNodes(g, Src, p)[Len(p)]] IN
-                 ValidRoute(g, q, BuildRoute(g, q, p))}
+Feasible(src, amt, fd) ==
+  {p \in Paths(src) : LET q == [Q0(src, amt, fd) EXCEPT !.dst = PathNodes(g, src, p)[Len(p)]] IN
+                      ValidRoute(g, q, BuildRoute(g, q, p))}
 
 Focus ==
   /\ phase = "focus"
-  /\ IF Paths = {} THEN focus' = NoFocus /\ UNCHANGED g
+  /\ \E src \in {Pick(<<Self, Self, Self, Self, RandomElement(Nodes \ {Self})>>)} :
+     IF Paths(src) = {} THEN focus' = NoFocus /\ UNCHANGED g
      ELSE
      \E fd \in {Pick(<<9, 18, 40>>)} :
-     \E good \in {{a \in {1000, 20000, 50000, 100000} : Feasible(a, fd) # {}}} :
+     \E good \in {{a \in {1000, 20000, 50000, 100000} : Feasible(src, a, fd) # {}}} :
      \E amt \in {IF good = {} THEN Pick(<<20000, 50000, 100000>>)
                   ELSE Pick(<<RandomElement(good), RandomElement(good), RandomElement(good), 50000>>)} :
-     \E feas \in {Feasible(amt, fd)} :
-     \E open \in {{p \in feas : PathNodes(g, Src, p)[Len(p)] # Src}} :
-     \E path \in {IF feas = {} THEN RandomElement(Paths)
+     \E feas \in {Feasible(src, amt, fd)} :
+     \E open \in {{p \in feas : PathNodes(g, src, p)[Len(p)] # src}} :
+     \E path \in {IF feas = {} THEN RandomElement(Paths(src))
                    ELSE IF open = {} THEN RandomElement(feas)
                    ELSE Pick(<<RandomElement(Longest(open)), RandomElement(Longest(open)),
                                RandomElement(Longest(open)), RandomElement(feas)>>)} :
      \E k \in {RandomElement(1..Len(path))} :
-     \E kind \in {Pick(<<"none", "max", "max-1", "min", "min+1", "bw", "bw-1", "max", "bw">>)} :
-       LET q0 == Q0(amt, fd)
+     \E kind \in {Pick(<<"none", "max", "max-1", "min", "min+1", "bw", "bw-1", "max", "bw", "dis", "dis">>)} :
+       LET q0 == Q0(src, amt, fd)
            r  == BuildRoute(g, q0, path)
-           nd == PathNodes(g, Src, path)
-           kk == IF kind \in {"bw", "bw-1"} THEN 1 ELSE k
+           nd == PathNodes(g, src, path)
+           \* the bandwidth that matters is that of the pathfinding node's own channel on the path
+           loc == {i \in 1..Len(path) : nd[i - 1] = Self}
+           kk == IF kind \in {"bw", "bw-1"} /\ loc # {} THEN CHOOSE i \in loc : TRUE ELSE k
            old == Pol(g, path[kk], nd[kk - 1])
            need == AmtOn(r, kk)
            new == IF kind = "max" THEN [old EXCEPT !.maxHtlc = need]
@@ -134,30 +151,40 @@ Focus ==
                   ELSE IF kind = "min+1" THEN [old EXCEPT !.minHtlc = need + 1]
                   ELSE IF kind = "bw" THEN [old EXCEPT !.bw = Lesser(need, old.cap)]
                   ELSE IF kind = "bw-1" THEN [old EXCEPT !.bw = Lesser(need - 1, old.cap)]
+                  ELSE IF kind = "dis" THEN [old EXCEPT !.disabled = 1]
                   ELSE old
        IN /\ g' = (g \ {old}) \cup {new}
-          /\ focus' = [amt |-> amt, fee |-> r.totalAmt - amt, tl |-> r.totalTL - Height,
-                       dst |-> nd[Len(path)], first |-> path[1], last |-> nd[Len(path) - 1], fd |-> fd]
+          /\ focus' = [amt |-> amt, fee |-> r.totalAmt - amt, tl |-> r.totalTL - Height, src |-> src,
+                       dst |-> nd[Len(path)], first |-> path[1], last |-> nd[Len(path) - 1], fd |-> fd,
+                       nodes |-> [i \in 1..Len(path) |-> nd[i]]]
   /\ phase' = "ask"
   /\ UNCHANGED <<req, res, pos, htlc, status, nch, want, hist>>
 
-LocalChans == {p.id : p \in {x \in g : x.from = Src \/ x.to = Src}}
+LocalChans == {p.id : p \in {x \in g : x.from = Self \/ x.to = Self}}
 Pairs      == {<<p.from, p.to>> : p \in g}
 SetSeq(S)  == SetToSeq(S)
 
+\* custom records for the recipient: none, one small, two (sorted by type), one large
+RecChoices == << <<>>, <<>>, <<>>, <<[t |-> 65537, n |-> 4]>>,
+                 <<[t |-> 65537, n |-> 0], [t |-> 106823, n |-> 32]>>, <<[t |-> 70001, n |-> 300]>> >>
+
 Ask ==
   /\ phase = "ask" /\ Len(hist) < NQ
-  /\ \E dst \in {Pick(<<focus.dst, focus.dst, focus.dst, focus.dst, focus.dst, focus.dst, RandomElement(Nodes), Src>>)} :
+  /\ \E via \in {IF focus.src # Self THEN Pick(<<"FindRoute", "FindRoute", "findPath">>)
+                 ELSE Pick(<<"findPath", "findPath", "findPath", "FindRoute", "FindRoute", "RequestRoute",
+                             "RequestRoute", "RequestRoute", "BuildRoute">>)} :
+     \E dst \in {Pick(<<focus.dst, focus.dst, focus.dst, focus.dst, focus.dst, focus.dst, RandomElement(Nodes), focus.src>>)} :
      \E amt \in {Pick(<<focus.amt, focus.amt, focus.amt, focus.amt, focus.amt + 1, focus.amt - 1, Pick(Amts)>>)} :
      \E fl \in {Pick(<<-1, -1, -1, focus.fee, focus.fee, focus.fee - 1, focus.fee - 1, focus.fee - 6, focus.fee + 1, 0, 5000>>)} :
      \E cl \in {Pick(<<-1, -1, -1, focus.tl, focus.tl, focus.tl - 1, focus.tl + 1, 50, 100>>)} :
-     \E oc \in {Pick(<<{}, {}, {}, {}, {}, {focus.first}, {focus.first}, {RandomElement(LocalChans)},
-                       {RandomElement(LocalChans), RandomElement(LocalChans)}>>)} :
+     \E oc \in {IF focus.src # Self THEN {}
+                ELSE Pick(<<{}, {}, {}, {}, {}, {focus.first}, {focus.first}, {RandomElement(LocalChans)},
+                            {RandomElement(LocalChans), RandomElement(LocalChans)}>>)} :
      \E lh \in {Pick(<<"", "", "", "", "", "", focus.last, focus.last, RandomElement(Nodes)>>)} :
-     \E ig \in {Pick(<<{}, {}, {}, {}, {}, {}, {}, {RandomElement(Nodes)}>>) \ {Src, dst}} :
+     \E ig \in {Pick(<<{}, {}, {}, {}, {}, {}, {}, {RandomElement(Nodes)}>>) \ {focus.src, dst}} :
      \E ip \in {Pick(<<{}, {}, {}, {}, {}, {}, {}, {RandomElement(Pairs)}>>)} :
-     \E hf \in {Pick(<<focus.dst, focus.dst, RandomElement(Nodes \ {Src})>>)} :
-     \E h2 \in {RandomElement(Nodes \ {Src})} :
+     \E hf \in {Pick(<<focus.dst, focus.dst, RandomElement(Nodes \ {focus.src})>>)} :
+     \E h2 \in {RandomElement(Nodes \ {focus.src})} :
      \E hs \in {Pick(<< <<>>, <<>>, <<>>, <<>>, <<>>, <<>>, <<>>, <<>>,
                        <<RandHint(100, hf, "p", 1)>>,
                        <<RandHint(100, hf, "p", 1), RandHint(101, hf, "p", 2)>>,
@@ -165,12 +192,44 @@ Ask ==
                        <<RandHint(100, hf, "y", 1), RandHint(101, "y", "p", 1)>>,
                        <<RandHint(100, hf, "y", 1), RandHint(101, "y", "p", 1)>>,
                        <<RandHint(100, hf, "y", 1), RandHint(101, "y", "p", 1), RandHint(102, h2, "p", 2)>> >>)} :
-       LET q == [src |-> Src, dst |-> IF hs = <<>> THEN dst ELSE "p", amt |-> Max(amt, 1),
+     \* final-hop payload ingredients and multi-part settings (RequestRoute; custom records also FindRoute)
+     \E pa \in {Pick(<<0, 1, 1, 1>>)} :
+     \E me \in {Pick(<<-1, -1, -1, 0, 7, 300>>)} :
+     \E rc \in {Pick(RecChoices)} :
+     \E fh \in {Pick(<<0, 0, 1>>)} :
+     \E md \in {Pick(<<0, 1, 1, 1>>)} :
+     \E mp \in {Pick(<<1, 1, 2, 16, 16>>)} :
+     \E sh \in {Pick(<<0, 0, 0, 1>>)} :
+     \E ms \in {Pick(<<0, 0, 0, 0, focus.amt - 1, focus.amt \div 2 + 1>>)} :
+     \E mn \in {Pick(<<1, 1, 1000, focus.amt \div 4, focus.amt \div 2 + 1>>)} :
+     \E tot \in {Pick(<<0, 0, 0, 50000>>)} :
+       LET session == via = "RequestRoute"
+           build   == via = "BuildRoute"
+           a1 == Max(amt, 1)
+           q == IF build
+                THEN [Q0(Self, focus.amt, focus.fd) EXCEPT !.via = via, !.dst = focus.dst, !.nodes = focus.nodes,
+                         !.outChans = IF Cardinality(oc) = 1 THEN SetSeq(oc) ELSE <<>>,
+                         !.payAddr = pa, !.pay = focus.amt]
+                ELSE
+                [via |-> via, self |-> Self, src |-> focus.src,
+                 dst |-> IF hs = <<>> THEN dst ELSE "p", amt |-> a1,
                  feeLimit |-> Max(fl, -1),
-                 cltvLimit |-> IF cl < 0 THEN -1 ELSE Max(cl, focus.fd + 1),
-                 outChans |-> SetSeq(oc), lastHop |-> IF lh = dst /\ dst # Src THEN "" ELSE lh,
-                 ignNodes |-> SetSeq(ig), ignPairs |-> SetSeq(ip), hints |-> hs,
-                 finalDelta |-> focus.fd, height |-> Height]
+                 cltvLimit |-> IF cl < 0 THEN -1
+                               ELSE Max(cl, focus.fd + 1) + (IF session THEN 3 ELSE 0),
+                 outChans |-> SetSeq(oc), lastHop |-> IF lh = dst /\ dst # focus.src THEN "" ELSE lh,
+                 ignNodes |-> SetSeq(ig), ignPairs |-> SetSeq(ip), hints |-> hs, nodes |-> <<>>,
+                 finalDelta |-> focus.fd, height |-> Height,
+                 pay |-> IF session THEN a1 + tot ELSE a1,
+                 payAddr |-> IF session THEN pa ELSE 0,
+                 meta |-> IF session THEN me ELSE -1,
+                 recs |-> IF via \in {"RequestRoute", "FindRoute"} THEN rc ELSE <<>>,
+                 fhRecs |-> IF session THEN fh ELSE 0,
+                 enc |-> -1,
+                 mppDest |-> IF session THEN md ELSE 0,
+                 maxParts |-> IF session THEN mp ELSE 1,
+                 shards |-> IF session THEN sh ELSE 0,
+                 maxShard |-> IF session THEN Max(ms, 0) ELSE 0,
+                 minShard |-> IF session THEN Max(mn, 1) ELSE 1]
        IN /\ req' = q
           /\ hist' = Append(hist, [a |-> "Query", req |-> q])
   /\ phase' = IF Len(hist) + 1 = NQ THEN "done" ELSE "ask"
@@ -181,5 +240,5 @@ GSpec == GInit /\ [][GNext]_gvars
 
 Dump == phase = "done" =>
           ndJsonSerialize("b_" \o ToString(TLCGet("stats").traces) \o ".ndjson",
-                          <<[a |-> "Graph", graph |-> SetSeq(g)]>> \o hist)
+                          <<[a |-> "Graph", fam |-> "rand", graph |-> SetSeq(g)]>> \o hist)
 =============================================================================
